@@ -81,15 +81,15 @@ def hashInput (t : Tx) : Bytes := encode txHashSpec t.toRec
 /-- `new(big.Int).SetBytes(b)`. -/
 def beNat (b : Bytes) : Nat := b.foldl (fun a x => a * 256 + x.toNat) 0
 
-def str (s : String) : Bytes := s.toUTF8.toList
+/-- The special account names as ASCII bytes (literal lists: kernel-reducible, unlike `String.toUTF8`). -/
+def aergoDot : Bytes := [97, 101, 114, 103, 111, 46]                                   -- "aergo."
+def aergoSystem : Bytes := aergoDot ++ [115, 121, 115, 116, 101, 109]                   -- "aergo.system"
+def aergoName : Bytes := aergoDot ++ [110, 97, 109, 101]                                -- "aergo.name"
+def aergoEnterprise : Bytes := aergoDot ++ [101, 110, 116, 101, 114, 112, 114, 105, 115, 101]  -- "aergo.enterprise"
+def aergoVault : Bytes := aergoDot ++ [118, 97, 117, 108, 116]                          -- "aergo.vault"
 
-def aergoSystem : Bytes := str "aergo.system"
-def aergoName : Bytes := str "aergo.name"
-def aergoEnterprise : Bytes := str "aergo.enterprise"
-def aergoVault : Bytes := str "aergo.vault"
-
-/-- `types.MaxAER` = 500,000,000 aergo. -/
-def maxAER : Nat := 500000000 * 10 ^ 18
+/-- `types.MaxAER` on main net: 500,000,000 aergo (elsewhere `initChainParams` replaces it by the genesis total). -/
+def maxAERMainNet : Nat := 500000000 * 10 ^ 18
 def txMaxSize : Nat := 200 * 1024
 def addressLength : Nat := 33
 def nameLength : Nat := 12
@@ -113,8 +113,8 @@ def typeCheck (isPublic : Bool) (t : Tx) : Option VErr :=
 section
 variable (H : Bytes → Bytes) (Verify : Bytes → Bytes → Bytes → Bool)
 
-/-- `transaction.Validate(chainidhash, isPublic)`; `none` = nil error. -/
-def validate (cid : Bytes) (isPublic : Bool) (t : Tx) : Option VErr :=
+/-- `transaction.Validate(chainidhash, isPublic)`; `none` = nil error. `maxAER` = the package variable `types.MaxAER`. -/
+def validate (maxAER : Nat) (cid : Bytes) (isPublic : Bool) (t : Tx) : Option VErr :=
   if cid ≠ t.chainIdHash then some .chainId
   else if t.size > txMaxSize then some .size
   else if t.account.isEmpty then some .format
@@ -135,6 +135,8 @@ deriving DecidableEq, Repr
 /-- What the node is configured with / what is not modelled here (fees: C01). -/
 structure Env where
   isPublic : Bool
+  /-- `types.MaxAER` (main net: 5·10^26; other nets: total genesis balance, chain/common.go:86) -/
+  maxAER : Nat
   /-- `fee.TxMaxFee(version, len(payload), gasLimit, balance, gasPrice)`; `none` = its error. -/
   maxFee : Tx → Nat → Option Nat
   /-- the `aergo.system` branch of `ValidateWithSenderState` (payload decode, stake against balance). -/
@@ -244,7 +246,7 @@ def executeTx (env : Env) (body : Body) (cid : Bytes) (W : World) (verified : By
     Except XErr (World × LogEntry) :=
   let account := getAddress W.led.names t.account
   if !verified.isEmpty && verified ≠ account then .error .signMismatch else
-  match validate H cid env.isPublic t with
+  match validate H env.maxAER cid env.isPublic t with
   | some e => .error (.v e)
   | none =>
   match validateSender env (W.nonce account) (W.led.bal account) t with
@@ -334,7 +336,7 @@ def poolKey (ns : Names) (t : Tx) : Bytes := if t.named then getAddress ns t.acc
 /-- `MemPool.verifyTx`: `Validate(acceptChainIdHash, isPublic)`, signature; returns the verified account
 (`[]` for an address sender). -/
 def poolVerify (env : Env) (acceptCid : Bytes) (ns : Names) (t : Tx) : Except AErr Bytes :=
-  match validate H acceptCid env.isPublic t with
+  match validate H env.maxAER acceptCid env.isPublic t with
   | some e => .error (.v e)
   | none =>
     if Verify (poolKey ns t) (H (signInput t)) t.sign then .ok (if t.named then poolKey ns t else [])
@@ -405,8 +407,16 @@ def cOwner : Nat := 4
 def cNotCreated : Nat := 5
 def cUnsupported : Nat := 99
 
-def move (bal : Bytes → Nat) (a b : Bytes) (amt : Nat) : Bytes → Nat :=
-  if a = b then bal else upd (upd bal a (bal a - amt)) b (upd bal a (bal a - amt) b + amt)
+/-- `state.SendBalance(a, b, amt)` on the balance map (no-op when both are the same account). The two new
+balances are computed *before* the closures are built: a definition returning a function is compiled with the
+extra argument, so computing them inside would re-read the old map on every later lookup. -/
+def moved (bal : Bytes → Nat) (a b : Bytes) (va vb : Nat) : Bytes → Nat := upd (upd bal a va) b vb
+
+def move (l : Ledger) (a b : Bytes) (amt : Nat) : Ledger :=
+  if a = b then l else
+  let va := l.bal a - amt
+  let vb := l.bal b + amt
+  { l with bal := moved l.bal a b va vb }
 
 /-- `name.ValidateNameTx(body, sender, scs)` (used by the pool's `validateTx` and first thing in `ExecuteNameTx`):
 balance, price, occupied / owner checks; `none` = ok, `some code` = its error. -/
@@ -431,19 +441,19 @@ def stdBody : Body := fun l t sender =>
       -- unknown name: a new contract account is created and `Create` fails without code: run-time failure
       (if t.payload.isEmpty then .runtimeFail l else .reject (.body cUnsupported))
     else if t.type = 5 then .runtimeFail l        -- CALL of an account without code: "not found contract"
-    else .ok { l with bal := move l.bal sender rcpt amount }
+    else .ok (move l sender rcpt amount)
   else if t.type = 1 ∧ t.recipient = aergoName then
     (match nameValidate l t sender with
      | some c => .reject (.body c)
      | none =>
        match t.cmd with
        | .create n =>
-         .ok { l with bal := move l.bal sender aergoName amount, pend := l.pend ++ [(n, ⟨sender, sender⟩)] }
+         .ok { move l sender aergoName amount with pend := l.pend ++ [(n, ⟨sender, sender⟩)] }
        | .update n to =>
          if (rawDest l.names n).length ≤ nameLength then .reject (.body cNotCreated)
          else
            let dest := getAddress l.names to
-           .ok { l with bal := move l.bal sender aergoName amount, pend := l.pend ++ [(n, ⟨dest, dest⟩)] }
+           .ok { move l sender aergoName amount with pend := l.pend ++ [(n, ⟨dest, dest⟩)] }
        | .none => .reject (.body cUnsupported))
   else .reject (.body cUnsupported)
 
@@ -468,7 +478,7 @@ def sigEnc (pk msg : Bytes) : Bytes := 1 :: (le 2 pk.length ++ pk ++ msg)
 /-- Accepts exactly the signature made with this (non-empty) key for this message. -/
 def idealVerify (pk msg sig : Bytes) : Bool := !pk.isEmpty && sig == sigEnc pk msg
 
-def zeroFeeEnv (isPublic : Bool) : Env :=
-  { isPublic := isPublic, maxFee := fun _ _ => some 0, sysCheck := fun _ _ => none }
+def zeroFeeEnv (isPublic : Bool) (maxAER : Nat) : Env :=
+  { isPublic := isPublic, maxAER := maxAER, maxFee := fun _ _ => some 0, sysCheck := fun _ _ => none }
 
 end Aergo.Auth
